@@ -1,6 +1,7 @@
 """C09 — filter / re-index / sort keep rows intact and leave the source untouched.
    Real code: exetera/core/{operations,fields,dataframe,session,validation}.py
-   Model:     coq/Model/FilterIndex.v + coq/Model/StableSort.v;  spec: coq/Spec/FilterIndexSpec.v
+   Model:     coq/Model/FilterIndex.v + coq/Model/StableSort.v + coq/Model/FrameHist.v (histories across entry-point
+              levels);  spec: coq/Spec/FilterIndexSpec.v + coq/Spec/FrameHistSpec.v
 """
 import io, itertools, os
 
@@ -12,7 +13,8 @@ LEVEL = 'proof'
 TIMEOUT_S = 30.0
 EXHAUSTIVE = {'quick': True, 'thorough': True}
 TECHNIQUE = ('Coq proof (Gallina model of the two indexed-string kernels, the FieldDataOps compositions, the DataFrame '
-             'loops and the LSD argsort of dataset_sort_index = list-level gather / stable lexicographic sort) + '
+             'loops and the LSD argsort of dataset_sort_index = list-level gather / stable lexicographic sort; histories of '
+             'calls at dataframe, session and field level = fold of the one-call specifications, by induction) + '
              'exhaustive small-scope differential correspondence against the real HDF5-backed and in-memory fields')
 RULE = ('exhaustive small scope, then seeded random. Kernels: every indexed-string column of <= 4 (thorough 5) rows with entry '
         'lengths in {0,1,2} x every boolean filter of that length (+ short/long filters), every index array of length <= 3 '
@@ -23,7 +25,19 @@ RULE = ('exhaustive small scope, then seeded random. Kernels: every indexed-stri
         'every field type (indexed strings with empty and multi-byte entries) with <= 4 rows x every boolean / 0-1-2 numeric / '
         'float filter, every index array of length <= 3 (2-column frame), every key list of length <= 2 with ties, each '
         'in place and into a fresh dataframe, via DataFrame.* and Session.sort_on, plus all two-step histories over a menu '
-        'of 14 calls (repeated application, destination reuse, in-place after out-of-place). Session.apply_filter/apply_index '
+        'of 14 calls (repeated application, destination reuse, in-place after out-of-place). Histories that cross entry-point '
+        'levels on ONE dataframe object (op fh; same DataFrame, Field and Session objects throughout): a 20-letter alphabet = '
+        'DataFrame.sort_values (1 key, 2 keys, string key) / apply_filter / apply_index, each in place and into a fresh '
+        'destination; Session.sort_on (same frame on another key / on the same key, other frame); Session.apply_index(dest=src) '
+        'on every column; Field.apply_index / apply_filter(in_place=True) on every column or on the key column only; '
+        'field.data[:]= / clear()+write() of the key column or of all rows. Every history of <= 3 letters over a 10-letter core '
+        'alphabet on a 3-row frame, every 2-letter history over the whole alphabet, every history (in-place dataframe call, '
+        'below-dataframe change, the same call again into a destination AND in place | any other dataframe call) on 2- and '
+        '3-row frames, 250 sampled 3-letter histories over the whole alphabet, 120 random histories of 4-9 letters with random '
+        'keys (1-2 sort keys over all columns) / permutations / filters / written values on 2-9 rows (thorough: 4 frames, 3000 '
+        '3-letter + 1500 4-letter + 1000 random histories); a new small literal of the tree under test becomes the row count '
+        '(harness/hot.py), a changed tree triples the sampled budget. Quick tier: these histories run compiled only. '
+        'Session.apply_filter/apply_index '
         'with Field and ndarray sources. HDF5-backed cases cost 3-10 ms each, hence the row bounds. After every call all fields '
         'of all dataframes are read back twice (through the cached Field objects and through fresh ones) and compared with the '
         'model AND with the row-level specification, including class/dtype/strlen/key of every column. Non-trivial = reaches a '
@@ -40,7 +54,10 @@ LEVEL_TEXT = ('Theorems in coq/Props/C09.v prove for all inputs (unbounded rows,
               'two kernels returns the canonical storage of the filtered / gathered entries, that every dataframe-level call '
               'equals the row-level specification (same gather applied to every column, source unchanged, metadata copied), '
               'that in-place equals out-of-place, and that dataset_sort_index is the unique stable permutation sorting the key '
-              'rows lexicographically; the model is tied to the repository by the differential run described in `rule`.')
+              'rows lexicographically; that a history of dataframe-, session- and field-level calls and direct writes on the '
+              'same objects equals the fold of the one-call specifications over the frames as they stand at each call '
+              '(c09_history_correct, c09_history_last_call_alone, c09_call_after_any_history: the model keeps no state '
+              'between calls); the model is tied to the repository by the differential run described in `rule`.')
 LEVEL_NOTE = ('Source immutability and metadata are facts about numpy/h5py aliasing: trivial in the functional model, '
               'established for the real code only by the correspondence run (bounded).')
 
